@@ -178,14 +178,14 @@ Qed.
 
 (** [squash_total_resolver]: at the all-atom level, the graph the resolver hands to squash_atoms (instantiate
     the fragments, create the bonds) has list-valued fragid and mapping on every node; so, being a well-formed
-    simple graph whose `bonding` edge attributes are descriptor pairs (both evaluated on every recorded case
+    simple graph whose hydrogen counts are numbers and whose `bonding` edge attributes are descriptor pairs (all evaluated on every recorded case
     by ./check C10), squash_atoms RETURNS on it, with one node fewer per merge. *)
 Theorem squash_total_resolver fd legacy meta m1 fg1 m2 fg2 : wf_dict fd ->
   resolve_disconnected fd meta = Ok (m1, fg1) -> bonding_step legacy true meta m1 fg1 = Ok (m2, fg2) ->
-  wf_graph m2 -> bondings_ok (edge_attr_items m2 squash_edge_attr) ->
+  wf_graph m2 -> hnum_g m2 -> bondings_ok (edge_attr_items m2 squash_edge_attr) ->
   exists g', squash_atoms m2 = Ok g' /\ typed_g g' /\ wf_graph g' /\
              (length g' + length (squash_plan [] (bang_items m2)) = length m2)%nat.
 Proof.
-  intros Hw H1 H2 W B. apply squash_total; [assumption| |assumption].
+  intros Hw H1 H2 W HN B. apply squash_total; [assumption| |assumption|assumption].
   apply typed_inv_typed_g. eapply bonding_step_typed; [|exact H2]. eapply resolve_disconnected_typed; eauto.
 Qed.
